@@ -417,6 +417,15 @@ Theorem cg_tridiag_switch_all :
     mget (FA F) (nth [::] (tmat_ (tri_step (FA F) C nc tri_thresh n_tridiag nti k s t)) q) k.-1 k < tri_thresh.
 Proof. move=> F C nc th ntri nti k s t; exact: switch_all. Qed.
 
+(* 19. The stopping rule never fires before the requested tridiagonalisation is complete: with n_tridiag > 0 the loop cannot
+       break in loop body k + 1 while k < min(n_tridiag_iter, max_iter - 1), whatever the residuals and the tolerance (the
+       clause an off-by-one in which silently returns an (m-1) x (m-1) matrix).  Any arithmetic, incl. binary64.   *)
+Theorem cg_stop_waits_for_tridiag :
+  forall (F : Type) (A : Arith F) (C : nat) (tolerance : F) (n_tridiag max_iter nti k : nat) (s : cg_num F),
+  (0 < n_tridiag)%N -> (k < minn nti max_iter.-1)%N ->
+  stop_rule A C tolerance n_tridiag max_iter nti k s = false.
+Proof. move=> F A C tol ntri mi nti k s; exact: stop_waits. Qed.
+
 (* the dense closure of a tensor argument (line 164) multiplies column j by the matrix of its batch member *)
 Theorem cg_dense_closure_linear :
   forall (R : comRingType) (dv : R -> R -> R) (sq ab : R -> R) (lt le eq : R -> R -> bool)
